@@ -45,9 +45,24 @@ def widen(rng, msg, cfg):
         elif pt == 'datetime' and r < 0.4 and isinstance(v, datetime.datetime) and v.year >= 1000:
             out[k] = v.strftime('%Y-%m-%d %H:%M:%S')
             tags.append('date_as_iso_string')
-        elif pt == 'decimal' and r < 0.3:
+        elif pt == 'decimal' and r < 0.25:
             out[k] = str(v)
             tags.append('decimal_as_string')
+        elif pt == 'decimal' and r < 0.6:
+            # the same kind of number in exponent form: Decimal('12E+3'), a normalised whole number, tiny values, 0E-7
+            width = c.get('field_length', 0) or 12
+            pick = rng.random()
+            if pick < 0.4 and width >= 4:
+                out[k] = decimal.Decimal('%dE+%d' % (rng.randint(1, 99), rng.randint(1, max(1, width - 3))))
+            elif pick < 0.6:
+                out[k] = decimal.Decimal(rng.randint(1, 9) * 10 ** rng.randint(1, max(1, min(6, width - 2)))).normalize()
+            elif pick < 0.8 and width >= 10:
+                out[k] = decimal.Decimal('%dE-%d' % (rng.randint(1, 9), rng.randint(7, width - 2)))
+            elif width >= 10:
+                out[k] = decimal.Decimal('0E-%d' % rng.randint(7, width - 2))
+            else:
+                out[k] = '%d.5E+1' % rng.randint(1, 9)
+            tags.append('decimal_in_exponent_form')
         elif pt in (None, 'string') and c['field_type'] == 'FIXED' and isinstance(v, str) and r < 0.3 and len(v) > 1 \
                 and not c.get('field_processor'):
             cut = rng.randint(1, len(v) - 1)
@@ -78,6 +93,7 @@ def cases(ctx):
         m, tags = widen(rng, gen.unjsonable(c['msg']), cfg)
         c = dict(c, msg=gen.jsonable(m), widened=tags)
         yield c
+    yield from msgwork.edited_config_cases(ctx, cids, encs[:4], 1500 if quick else 30000)
     # refusal of unrepresentable values
     i = 0
     for cid in cids[:4]:
@@ -99,7 +115,7 @@ def judge(ctx, case):
     if case['class'] == 'refusal':
         return judge_refusal(ctx, case)
     iso = ctx.iso
-    cfg = msgwork.cfg_of(case['cfg'])
+    cfg = msgwork.materialise_cfg(ctx, case, iso.dumps)
     msg = gen.unjsonable(case['msg'])
     for k, v in case['msg'].items():
         if v is None:
@@ -236,7 +252,7 @@ def require(m):
     if not c.get('class:refusal'):
         reasons.append('refusal cases not driven')
     feats = set(m['classes'].get('encode-side spellings', ()))
-    for need in ('number_as_string', 'date_as_iso_string', 'short_fixed_text', 'empty_or_none_value'):
+    for need in ('number_as_string', 'date_as_iso_string', 'short_fixed_text', 'empty_or_none_value', 'decimal_in_exponent_form'):
         if need not in feats:
             reasons.append('encode-side spelling never exercised: ' + need)
     mf = set(m['classes'].get('message features', ()))
